@@ -19,21 +19,22 @@ func f64bits(f float64) uint64 { return math.Float64bits(f) }
 
 // Config bounds an exploration.
 type Config struct {
-	MaxSteps   int
-	MaxDepth   int
-	MaxUnwind  int
-	MaxEnum    int
-	MaxPaths   int
-	Workers    int
-	Solver     string
-	TimeoutMs  int
-	ModPath    string // module path of the code under test
-	MaxSeconds int    // wall-clock budget for the exploration
+	MaxSteps      int
+	MaxDepth      int
+	MaxUnwind     int
+	MaxEnum       int
+	MaxPaths      int
+	Workers       int
+	Solver        string
+	TimeoutMs     int
+	ModPath       string // module path of the code under test
+	MaxSeconds    int    // wall-clock budget for the exploration
+	MaxStrExplode int    // strings.ToUpper/ToLower/EqualFold/TrimSpace run as real code on strings up to this many bytes (uninterpreted beyond)
 }
 
 func DefaultConfig() Config {
 	return Config{MaxSteps: 2_000_000, MaxDepth: 200, MaxUnwind: 64, MaxEnum: 8, MaxPaths: 2_000_000, Workers: 16,
-		Solver: "z3-new", TimeoutMs: 20000, MaxSeconds: 900, ModPath: "github.com/trustbloc/sidetree-core-go"}
+		Solver: "z3-new", TimeoutMs: 20000, MaxSeconds: 900, MaxStrExplode: 4, ModPath: "github.com/trustbloc/sidetree-core-go"}
 }
 
 // Violation is a counterexample to an obligation.
@@ -221,8 +222,8 @@ func (e *Engine) skipInit(path string) bool {
 	// package initialisers that are never executed (their globals stay zero; stubs cover their use).
 	// Entries ending in "/" match a whole tree, the others one package.
 	for _, p := range []string{"go.uber.org/", "github.com/trustbloc/logutil-go/", "os", "os/", "syscall", "runtime", "runtime/", "time", "reflect", "internal/",
-		"sync", "sync/", "net", "net/", "crypto", "crypto/", "encoding/json", "encoding/base64", "encoding/hex", "unicode", "regexp", "regexp/", "fmt", "log", "io", "io/", "bufio",
-		"bytes", "math/big", "math/rand", "compress/", "hash", "hash/", "testing", "flag", "context", "go.opentelemetry.io/", "github.com/stretchr/",
+		"sync", "sync/", "net", "net/", "crypto", "crypto/", "encoding/json", "encoding/base64", "encoding/hex", "unicode", "regexp", "regexp/", "fmt", "log", "io/", "bufio",
+		"math/big", "math/rand", "compress/", "hash", "hash/", "testing", "flag", "context", "go.opentelemetry.io/", "github.com/stretchr/",
 		"github.com/square/go-jose/", "github.com/btcsuite/", "golang.org/x/crypto/"} {
 		if path == p || (strings.HasSuffix(p, "/") && strings.HasPrefix(path, p)) {
 			return true
@@ -301,8 +302,17 @@ func (e *Engine) Run(harnesses []*ssa.Function) {
 					e.cond.Broadcast()
 					break
 				}
-				it := e.stack[len(e.stack)-1]
-				e.stack = e.stack[:len(e.stack)-1]
+				var it workItem
+				if id < (e.Cfg.Workers+3)/4 && len(e.stack) > 1 {
+					// a quarter of the workers are breadth scouts: they take the OLDEST pending alternative
+					// (the shallowest fork), so a violation that sits a few decisions from the root is met
+					// early even when the depth-first workers are lost in an exploding subtree
+					it = e.stack[0]
+					e.stack = e.stack[1:]
+				} else {
+					it = e.stack[len(e.stack)-1]
+					e.stack = e.stack[:len(e.stack)-1]
+				}
 				e.active++
 				e.pathsRun++
 				over := e.pathsRun > e.Cfg.MaxPaths
@@ -319,6 +329,14 @@ func (e *Engine) Run(harnesses []*ssa.Function) {
 				sname := e.Cfg.Solver
 				if o, ok := e.SolverFor[it.h.Name()]; ok && o != "" {
 					sname = o
+				}
+				if sols[sname] != nil && sols[sname].Dead() {
+					e.mu.Lock()
+					e.solverT += sols[sname].Time
+					e.solverQ += sols[sname].Queries
+					e.mu.Unlock()
+					sols[sname].Close()
+					sols[sname] = nil
 				}
 				if sols[sname] == nil {
 					sol, err := NewSolver(sname, e.Cfg.TimeoutMs)
